@@ -120,7 +120,8 @@ def main():
                     op = rnd.choice(["store", "has", "fetch", "sync", "fetchp", "reopen", "other_writer"])
                     key = rnd.choice(["k1", "k2", "k3"])
                     if op == "store":
-                        val = "value-of-" + key
+                        # k3 denotes a value whose serialised form is empty (present all the same once stored)
+                        val = "" if key == "k3" else "value-of-" + key
                         st.store_blob(key, val, None)
                         blobs[key] = val
                         ops.append("store(%s)" % key)
